@@ -449,7 +449,23 @@ def run_case(case, rec, prebuilt=None):
             ua, ub = units[a], units[b]
             if ua in pos and ub in pos and pos[ua] > pos[ub]:
                 if not any(ua in l and ub in l for l in lps): bad.append((ua.ID, ub.ID))
-        rec.check(not bad, clause, 'backward-edge-outside-loop' + vt, f'streams run against the path order between units that share no recycle loop: {bad[:4]}; path {ids}{deco}')
+        bsfx = ''
+        if bad:
+            # mechanism: do the two ends of every such stream lie on one cycle of the true flowsheet (one strongly connected component)?  Then a common recycle loop
+            # exists and the library failed to report it (interlocking loops); otherwise the path order itself is wrong.
+            adj = {}
+            for a_, b_ in true_edges: adj.setdefault(a_, set()).add(b_)
+            def reach(src):
+                seen, stack = set(), [src]
+                while stack:
+                    x = stack.pop()
+                    for y in adj.get(x, ()):
+                        if y not in seen: seen.add(y); stack.append(y)
+                return seen
+            idx_of = {u.ID: k_ for k_, u in enumerate(units)}
+            same = all(idx_of[b_] in reach(idx_of[a_]) and idx_of[a_] in reach(idx_of[b_]) for a_, b_ in bad)
+            if same: bsfx = '/ends-on-one-true-cycle'
+        rec.check(not bad, clause, 'backward-edge-outside-loop' + bsfx + vt, f'streams run against the path order between units that share no recycle loop: {bad[:4]}; path {ids}{deco}')
         if not kind and (len(lps) >= 2 or len(recycles) >= 2): rec.hit('cyclic:nested-or-multi')
     rec.hit(clause)
     branch = any(len([e for e in true_edges if e[0] == k]) >= 2 for k in given)
